@@ -854,6 +854,57 @@ theorem intLitType_dec (v : Nat) :
 
 theorem Dec.same_refl (d : Dec) : Dec.same d d := ⟨rfl, rfl⟩
 
+/-! ## F'. negative numbers in parentheses -/
+
+theorem unparen_signedLit (t : Str) (h : t.head? ≠ some '(') : unparen (signedLit t) = t := by
+  unfold signedLit
+  by_cases hm : t.head? = some '-'
+  · have hl : ('(' :: (t ++ [')'])).getLast? = some ')' := by
+      rw [← List.cons_append, List.getLast?_append]; simp
+    simp [hm, unparen, hl]
+  · simp [hm, unparen, h]
+
+theorem digitChar_ne_lparen {k : Nat} (h2 : k < 10) : digitChar k ≠ '(' := by
+  intro h
+  have := congrArg Char.toNat h
+  rw [digitChar_toNat h2] at this
+  have h0 : ('(' : Char).toNat = 40 := by decide
+  omega
+
+theorem renderInt_head (n : Int) : (renderInt n).head? ≠ some '(' := by
+  cases n with
+  | ofNat m =>
+    obtain ⟨k, ds, hk, he⟩ := renderNat_head m
+    have := digitChar_ne_lparen hk
+    simp [renderInt, he, this]
+  | negSucc m => simp [renderInt]
+
+theorem renderFloat_head (neg : Bool) (ip : List (Fin 10)) (fp : Option (List (Fin 10)))
+    (ex : Option (Bool × List (Fin 10))) (hip : ip ≠ []) : (renderFloat neg ip fp ex).head? ≠ some '(' := by
+  cases neg with
+  | true => rw [renderFloat_neg]; simp
+  | false =>
+    obtain ⟨k, r, hk, he⟩ := digs_head hip
+    have := digitChar_ne_lparen hk
+    rw [renderFloat_pos, he]
+    simp [this]
+
+theorem cppIntE_signed (n : Int) : cppIntE (signedLit (renderInt n)) = cppIntL (renderInt n) := by
+  unfold cppIntE; rw [unparen_signedLit _ (renderInt_head n)]
+
+theorem cppFloatE_signed (neg : Bool) (ip : List (Fin 10)) (fp : Option (List (Fin 10)))
+    (ex : Option (Bool × List (Fin 10))) (hip : ip ≠ []) :
+    cppFloatE (signedLit (renderFloat neg ip fp ex)) = cppFloatL (renderFloat neg ip fp ex) := by
+  unfold cppFloatE; rw [unparen_signedLit _ (renderFloat_head neg ip fp ex hip)]
+
+/-- a text in the output of `signedLit` never starts with a sign -/
+theorem signedLit_head (t : Str) : (signedLit t).head? ≠ some '-' ∧
+    ((signedLit t).head? = some '+' → t.head? = some '+') := by
+  unfold signedLit
+  by_cases hm : t.head? = some '-'
+  · simp [hm]
+  · simp [hm]
+
 /-! ## G. stored constants: conversions along a chain of types -/
 
 theorem intToDbl_isSome (n : Int) (h : InInt32 n) : ∃ b, intToDbl n = some b := by
@@ -970,5 +1021,24 @@ theorem paths_shape : ∀ k : Carrier, ∀ p ∈ k.paths,
         · exact h2 t h
         · exact hall t h
       · simp [hne]
+
+/-- under an accepted conditional no constant is a string (a bare string constant is fine) -/
+theorem accepted_nostr : ∀ k : Carrier, k.accepted = true → (∀ s, k ≠ .const (.str s)) →
+    ∀ c ∈ k.consts, ∀ s, c ≠ .str s := by
+  intro k
+  induction k with
+  | const c =>
+    intro _ hk c' hc' s hs
+    simp [Carrier.consts] at hc'
+    subst hc'; subst hs
+    exact hk s rfl
+  | ite a b iha ihb =>
+    intro hacc _ c hc s
+    simp only [Carrier.accepted, Bool.and_eq_true, bne_iff_ne, ne_eq] at hacc
+    obtain ⟨⟨⟨hta, htb⟩, haa⟩, hab⟩ := hacc
+    simp only [Carrier.consts, List.mem_append] at hc
+    rcases hc with hc | hc
+    · exact iha haa (fun s' h' => hta (by simp [h', Carrier.ty, litTy])) c hc s
+    · exact ihb hab (fun s' h' => htb (by simp [h', Carrier.ty, litTy])) c hc s
 
 end FaxVerif.C18
